@@ -286,6 +286,9 @@ func (ex *Exec) abstractCall(fr *Frame, st *State, c *ssa.CallCommon, recv Val, 
 	}
 	rec.Results = ex.freshResults(st, c.Signature(), "ret_"+sanitize(key))
 	if c.IsInvoke() {
+		if fc := ex.ld.ifaceContract(c.Value.Type(), c.Method.Name()); fc != nil && fc.Opts["functional"] == "true" {
+			rec.Results = ex.ifaceFunctional(c.Value.Type(), c.Method.Name(), c.Signature(), recv, args)
+		}
 		if fc := ex.ld.ifaceContract(c.Value.Type(), c.Method.Name()); fc != nil {
 			env := &Env{ex: ex, st: st, old: rec.Pre, vars: map[string]Val{}, results: rec.Results, pkg: c.Method.Pkg()}
 			sig := c.Signature()
@@ -348,6 +351,23 @@ func (ex *Exec) callContract(fr *Frame, st *State, fn *ssa.Function, fc *FuncCon
 		ex.bumpAlloc(st)
 	}
 	results := ex.freshResults(st, fn.Signature, "ret_"+fn.Name())
+	if fc.Opts["functional"] == "true" {
+		var leaves []*Term
+		okF := true
+		for _, a := range args {
+			if a.Loc != nil {
+				okF = false
+			}
+			leaves = append(leaves, a.L...)
+		}
+		if okF {
+			for i := range results {
+				for j := range results[i].L {
+					results[i].L[j] = App(fmt.Sprintf("fn_%s_%d_%d", sanitize(fnKey(fn)), i, j), results[i].L[j].S, leaves...)
+				}
+			}
+		}
+	}
 	post := &Env{ex: ex, st: st, old: pre, vars: env.vars, pkg: env.pkg, results: results, resultNames: resultNames(fn)}
 	ex.applyGhost(post, fc, st)
 	for _, e := range fc.Ensures {
@@ -725,5 +745,26 @@ func (ex *Exec) memKeys(env *Env, m *ModTarget) []keySort {
 	for j, lf := range lo.Leaves {
 		out = append(out, keySort{memKey(t, j, lf), ArrS(IntS, ArrS(BVS(64), lf.S))})
 	}
+	return out
+}
+
+// ifaceFunctional: results of a `functional` interface method are uninterpreted functions of the receiver and arguments.
+func (ex *Exec) ifaceFunctional(it types.Type, method string, sig *types.Signature, recv Val, args []Val) []Val {
+	var leaves []*Term
+	leaves = append(leaves, recv.L...)
+	for _, a := range args {
+		leaves = append(leaves, a.L...)
+	}
+	var out []Val
+	for i := 0; i < sig.Results().Len(); i++ {
+		t := sig.Results().At(i).Type()
+		lo := layoutOf(t)
+		v := Val{T: t}
+		for j, lf := range lo.Leaves {
+			v.L = append(v.L, App(fmt.Sprintf("ifn_%s_%s_%d_%d", sanitize(normKey(it)), method, i, j), lf.S, leaves...))
+		}
+		out = append(out, v)
+	}
+	ex.trustedUsed["interface method treated as a function of its receiver: "+normKey(it)+"."+method] = true
 	return out
 }
